@@ -9,6 +9,7 @@ for f in spec/*.tla; do
   # Proofs.tla extends the TLAPS module, which only the proof manager's library has; it is checked by tlapm in the C08 check
   [ "$f" = "spec/Proofs.tla" ] && continue
   [ "$f" = "spec/ProofsGeometry.tla" ] && continue      # likewise, proved by tlapm inside the C10 and C11 checks
+  [ "$f" = "spec/ProofsWL.tla" ] && continue            # likewise, inside the C18 check
   out=$(cd spec && java -cp /opt/veriftools/tla/tla2tools.jar tla2sany.SANY "$(basename "$f")" 2>&1) || true
   if echo "$out" | grep -q -e "\*\*\*Parse Error\*\*\*" -e "\*\*\* Errors:" -e "Fatal errors" -e "Could not find module"; then
     echo "SANY failed on $f"; echo "$out" | tail -20; fail=1
